@@ -403,6 +403,12 @@ class Interp:
                 return env[f.id](*args, **kwargs)
             if f.id in self.globals and callable(self.globals[f.id]):
                 return self.globals[f.id](*args, **kwargs)
+            if f.id == "isinstance" and len(args) == 2 and not kwargs:
+                cls = args[1]
+                classes = cls if isinstance(cls, tuple) else (cls,)
+                if not all(isinstance(k, Obj) and k.name.startswith("class:") for k in classes):
+                    raise Unsupported("line %d: isinstance against an unscripted class" % e.lineno)
+                return isinstance(args[0], Obj) and args[0].attrs.get("__class__") in classes
             if f.id in self.BUILTINS:
                 if any(isinstance(a, (Opaque, Obj)) for a in args) and f.id in ("str", "int", "bool"):
                     raise Unsupported("line %d: %s() of an opaque value" % (e.lineno, f.id))
